@@ -66,7 +66,8 @@ CHECKS = {
         text="encode_ttl, extract_rcode_from_ttl and the version extraction of OPT::parse are evaluated as tables for every "
              "version x response code and every extended-rcode x header nibble against the RFC 6891 layout; the mask constants "
              "are compared with tables/edns.tsv; OPT::parse is shown to read CLASS@+2 as the payload size and TTL@+4; the writers "
-             "emit header.opt_rr() exactly once, after every authority record, and ARCOUNT adds opt.is_some(); the header carries only the low four bits of the response code for every RCODE variant; the option loop of OPT::parse consumes the RDATA to its end; the parser lifts the OPT record by type.",
+             "emit header.opt_rr() exactly once, after every authority record, and ARCOUNT adds opt.is_some(); the header carries only the low four bits of the response code for every RCODE variant; the option loop of OPT::parse consumes the RDATA to its end; the parser lifts the OPT record by type; the CLASS slot "
+             "written for the OPT record is udp_packet_size unchanged (writer table evaluated on 0, 0xFFFF, two common sizes and every single bit).",
         note="Trusted: as C08. Does not decide behaviour with several OPT records in the input.",
         ref="DESIGN.md section 4 C09"),
     "C11": dict(
@@ -83,7 +84,8 @@ CHECKS = {
     "C16": dict(
         technique="field-origin analysis on extracted result terms (into_owned) + field-set comparison of Hash/PartialEq bodies + iteration-order taint",
         text="Every into_owned (51 functions and the record-building closures inside them) is linearised and each field / variant "
-             "payload of its result is shown to originate in the same field / payload of self, with no constant or fresh origin; "
+             "payload of its result is shown to originate in the same field / payload of self, with no constant or fresh origin, and no into_owned "
+             "sorts, reverses, de-duplicates or removes elements of a collection it copies; "
              "for types with a hand-written Hash or PartialEq the hashed fields are a subset of the compared fields and whatever equality folds away (case, whitespace) the hash folds away too; no Hash impl "
              "feeds the hasher in HashSet/HashMap iteration order; Clone impls are derived. Structural for all values: an owned "
              "copy is field-for-field the original, hence equal, hence serialises identically.",
@@ -154,7 +156,7 @@ CHECKS = {
         text="From tables/compression.tsv (the property's two lists): the names that must be compressed are routed to "
              "Name::compress_append by their type's write_compressed_to, the types whose RFCs forbid compression never reach it; "
              "the pointer is `offset | 0xC000` written as one big-endian u16 with offset <= 0x3FFF; a suffix is left out of the table only when its offset is >= 0x4000 (used where allowed); the table entry for a suffix "
-             "is (writer position before the label's first byte, &labels[i..]). One genuine defect (offsets are absolute stream "
+             "is (writer position before the label's first byte, &labels[i..]); that table is created once per message, outside any loop. One genuine defect (offsets are absolute stream "
              "positions, not message-relative) is recorded as a known finding.",
         note=TB + " A-SEEK. 'Expands to the intended name' beyond the record-before-write clause is not decided.",
         ref="DESIGN.md section 4 C07"),
@@ -180,7 +182,8 @@ CHECKS = {
              "with no chain / merge met before it. The attribute writer (TXT from a map) writes a `=` on every path of a present "
              "value and on no path of an absent one, and the reader (TXT::attributes) splits once at the first `=` and stores a "
              "present value exactly on the paths where a second piece exists. The escape / unescape functions convert no single byte "
-             "to a char (a necessary condition of the inverse).",
+             "to a char (a necessary condition of the inverse). Name::is_subdomain_of / Name::without reach no textual rendering of a name "
+             "and no string search: the subdomain relation is decided on labels.",
         note="Does not decide set / attribute value equality across the wire, which labels form the instance name, nor the escape / "
              "unescape inverse (value-level; two seeded changes of that kind are documented as not detected).",
         ref="DESIGN.md section 4 C15"),
@@ -258,7 +261,7 @@ def main():
         "not_applicable": na,
         "notes": "All checks are static: /repo is type-checked by the driver, never executed. Exit 2 = infrastructure error "
                  "(tree does not compile / driver missing). Functions that are not in tables/functions.tsv (helpers extracted by a "
-                 "later refactoring) are inlined into their callers before analysis. Tested both ways: seeded/ (193 property-breaking "
+                 "later refactoring) are inlined into their callers before analysis. Tested both ways: seeded/ (205 property-breaking "
                  "changes, RESULTS.json) and neutral/ (behaviour-preserving refactorings that must stay silent).",
     }
     json.dump(m, open(os.path.join(VERIF, "MANIFEST.json"), "w"), indent=1)
